@@ -45,7 +45,7 @@ Fresh(id, fam, viol, cov) ==
    shown |-> "", shownMsvc |-> FALSE, lastFin |-> 0, lastReads |-> <<>>, lastHasDep |-> FALSE,
    prevOK |-> FALSE, prevTargets |-> <<>>, prevFile |-> "", changed |-> TRUE, repeat |-> FALSE,
    inInv |-> FALSE, errSeen |-> FALSE, lastOk |-> FALSE, p1names |-> {},
-   xpl |-> NoXpl, locs |-> <<>>, lastSum |-> <<"none", 0>>,
+   xpl |-> NoXpl, locs |-> <<>>, lastSum |-> <<"none", 0>>, crashed |-> FALSE,
    viol |-> viol, cov |-> cov]
 
 Init == l = 1 /\ w = Fresh("", "", {}, Cov0)
@@ -354,12 +354,13 @@ DoDbw(ev) ==
                    \cup Lbl({"CONF"}, "explain", (w.inv.adopt /\ w.inv.explain) => XplReasonOK(g, s, w.xpl)))
       cov == BumpIf(BumpIf(BumpIf(Bump(w.cov, "dbw"), "adoptRec", isBuild /\ w.inv.adopt),
                 "discRec", isBuild /\ ev.deps # <<>>), "crash", "kept" \in DOMAIN ev)
-  IN IF w.bad \/ ~isBuild THEN [w EXCEPT !.cov = cov]
-     ELSE IF s = 0 THEN [w EXCEPT !.viol = @ \cup v, !.cov = cov]
+  IN IF w.bad \/ ~isBuild THEN [w EXCEPT !.cov = cov, !.crashed = @ \/ ("kept" \in DOMAIN ev)]
+     ELSE IF s = 0 THEN [w EXCEPT !.viol = @ \cup v, !.cov = cov, !.crashed = @ \/ ("kept" \in DOMAIN ev)]
      ELSE [w EXCEPT !.log = IF torn THEN @ ELSE Append(@, rec),
                     !.cur = IF torn THEN @ ELSE (s :> rec) @@ @,
                     !.pend = IF w.pend.s = s THEN NoPend ELSE @,
                     !.xpl = IF w.inv.adopt /\ w.inv.explain THEN [@ EXCEPT !.kind = "used"] ELSE @,
+                    !.crashed = @ \/ ("kept" \in DOMAIN ev),
                     !.viol = @ \cup v, !.cov = cov]
 
 DoPu(ev) ==
@@ -413,7 +414,8 @@ DoEnd(ev) ==
       kgScope == IF w.workNo = 1 /\ HasProducer(g, MFile) /\ w.finFail \cap W1(g) # {}
                    THEN NonPhony(g, W1(g)) ELSE np
       allExist == \A s \in np : MissingOf(g, w.file, s, CurRec(s).deps) = {}
-      v == Lbl({"C06", "C12"}, "panic", ev.panic = "")
+      \* (after a crash left a torn log, a panic is also "a log that a later invocation cannot load")
+      v == Lbl(IF w.crashed THEN {"C06", "C12", "C07"} ELSE {"C06", "C12"}, "panic", ev.panic = "")
            \cup Lbl({"C07"}, "log-unreadable", ev.errk # "loaddb")
            \cup Lbl({"C05"}, "exit-zero-after-failure", (w.finFail # {} \/ w.intr # {} \/ ev.err # "") => ~ok)
            \cup (IF ~loaded THEN {} ELSE
